@@ -1234,6 +1234,55 @@ def check_comparator(res, rule, unit, name, file, nan_strict=False):
     return rep
 
 
+# ------------------------------------------------------------------------------------------------------------ override
+
+MARGIN_ARRAYS = ("geom_margin", "body_margin", "flex_margin", "pair_margin")
+
+
+def check_override(res, unit):
+    """Every margin the driver uses to prune or accept a pair is subject to the global override (mjENBL_OVERRIDE replaces all
+    margins by opt.o_margin): a read of a model margin array is either an argument of mj_assignMargin, or sits on the
+    not-overridden side of a condition on the override.  A margin that bypasses it makes one phase prune pairs that the
+    other phases (which honour the override) would keep."""
+    from .. import norm
+    res.rule("R-OVERRIDE", "margin reads in the collision driver go through mj_assignMargin or an explicit override test", floor=8)
+    nreads = 0
+    for fname, fn in unit.funcs.items():
+        if (fn.get("file") or unit.tu) != unit.tu:
+            continue
+        body = cir.body(fn)
+        if body is None:
+            continue
+        reads = [x for x in cir.walk(body) if x.get("k") == "MemberExpr" and x.get("arrow") and x.get("n") in MARGIN_ARRAYS]
+        if not reads:
+            continue
+        ovr_locals = {x.get("n") for x in cir.walk(body) if x.get("k") == "VarDecl" and x.get("init") and
+                      any(t in cir.text([c for c in cir.kids(x) if c][-1]) for t in ("mjENBL_OVERRIDE", "o_margin"))}
+        in_assign = set()
+        for c in cir.calls(body, "mj_assignMargin"):
+            in_assign |= {id(y) for y in cir.walk(c)}
+        bad = []
+        for x in reads:
+            nreads += 1
+            if id(x) in in_assign:
+                continue
+            gs = norm.guards(body, x) or []
+            aware = False
+            for c_, pol in gs:
+                t = cir.text(c_)
+                if "mjENBL_OVERRIDE" in t or "o_margin" in t or (cir.vars_in(c_) & ovr_locals):
+                    aware = True
+            if not aware:
+                bad.append(x)
+        if bad:
+            res.bad("R-OVERRIDE", f"{fname}:{bad[0].get('n')}", DRV, bad[0].get("line"),
+                    f"{fname} uses m->{bad[0].get('n')} ({len(bad)} read(s)) without mj_assignMargin and outside an override test: with "
+                    f"mjENBL_OVERRIDE the phases that honour o_margin and this one disagree on which pairs are near")
+        else:
+            res.ok("R-OVERRIDE", fname, {"reads": len(reads)})
+    res.count("margin_reads", nreads)
+
+
 # ------------------------------------------------------------------------------------------------------------ run
 
 def run(res, tier):
@@ -1268,6 +1317,8 @@ def run(res, tier):
     check_exclude(res, unit, geomflex)
     check_fcp(res, unit, bm_name)
     check_broadphase(res, unit)
+
+    check_override(res, unit)
 
     res.rule("R-CMP", "sort comparators are antisymmetric (and transitive) over all order types of their keys", floor=4)
     inst = sort_instances(unit)
